@@ -481,7 +481,7 @@ def run(ck):
                                'harness/h_nlread.cc recording handler + error-class mapping; checks/c02.py oracle and comparison']
 
 
-EXPECT_THEOREMS = 8
+EXPECT_THEOREMS = 9
 
 
 def replay(ck, path):
